@@ -90,6 +90,17 @@ theorem interleave_facts {l1 l2 l : List Nat} (h : Interleave l1 l2 l) :
     l.length = l1.length + l2.length ∧ l1.Sublist l ∧ l2.Sublist l ∧ l.Perm (l1 ++ l2) :=
   ⟨interleave_length h, interleave_sublist_left h, interleave_sublist_right h, interleave_perm h⟩
 
+/-- C18.empty_input_passthrough: with one input empty the mixer emits exactly the other input,
+whatever the selector says (the selector is not a filter). -/
+theorem empty_input_passthrough (sf : Nat → Nat → Bool) (l : List Nat) (r1 r2 g1 g2 : Bool)
+    (fuel : Nat) (hf : fuel ≥ l.length) :
+    drain sf fuel (Mx.init [] l r1 r2 g1 g2) = l ∧ drain sf fuel (Mx.init l [] r1 r2 g1 g2) = l := by
+  constructor
+  · have h := interleave_facts (drain_is_interleaving sf [] l r1 r2 g1 g2 fuel (by simpa using hf))
+    exact (h.2.2.1.eq_of_length (by simpa using h.1.symm)).symm
+  · have h := interleave_facts (drain_is_interleaving sf l [] r1 r2 g1 g2 fuel (by simpa using hf))
+    exact (h.2.1.eq_of_length (by simpa using h.1.symm)).symm
+
 /-- C18.sorted_merge: a total, transitive selector merges sorted inputs into a sorted output. -/
 theorem sorted_merge (sf : Nat → Nat → Bool)
     (total : ∀ a b, sf a b = true ∨ sf b a = true)
